@@ -154,7 +154,7 @@ def check_config(ctx, spec, rsel, label):
         # point with OTHER parameters (interchangeable entry points: two readers of one cycle value) the choice needs
         # no name and the call is also made without one
         satisfied = [(n_, ps_) for n_, ps_ in entry.items() if set(ps_) <= set(provided)]
-        implicit_ok = len(entry) > 1 and ename is not None and all(tuple(ps_) == tuple(eps) for _, ps_ in satisfied)
+        implicit_ok = len(entry) > 1 and ename is not None and all(set(ps_) == set(eps) for _, ps_ in satisfied)
         for runner, named in [(r_, True) for r_ in ("sync", "async")] + ([(r_, False) for r_ in ("sync", "async")] if implicit_ok else []):
             ekw = {"entrypoint": ename} if len(entry) > 1 and named else {}
             if not named:
